@@ -181,6 +181,35 @@ def theorem_at(vfile: str, lineno: int):
     return name
 
 
+_REQ = re.compile(r"(?:From\s+PV\s+)?Require\s+(?:Import|Export)?\s*([^.]*(?:\.[A-Za-z_][^.\s]*)*)\.\s", re.S)
+
+
+def needed_gen_files(roots):
+    """transitive closure of the PV requires of the given .v files (relative to coq/); returns the Gen/*.v names"""
+    seen, todo, gens = set(), list(roots), set()
+    while todo:
+        f = todo.pop()
+        if f in seen:
+            continue
+        seen.add(f)
+        path = os.path.join(COQ, f)
+        if not os.path.exists(path):
+            continue
+        src = re.sub(r"\(\*.*?\*\)", "", open(path).read(), flags=re.S)
+        for m in re.finditer(r"Require\s+(?:Import\s+|Export\s+)?(.*?)\.(?=\s)", src, flags=re.S):
+            for name in m.group(1).split():
+                name = name.strip()
+                if name.startswith("PV."):
+                    name = name[3:]
+                parts = name.split(".")
+                if len(parts) == 2 and parts[0] in ("Base", "Gen", "Model", "Spec", "Proofs", "Props", "Extract"):
+                    if parts[0] == "Gen":
+                        gens.add(parts[1] + ".v")
+                    else:
+                        todo.append("%s/%s.v" % (parts[0], parts[1]))
+    return sorted(gens)
+
+
 def build(prop: str, driver: str | None, extra_targets=()) -> BuildResult:
     """gen tables, make Props/<prop>.vo and the extraction, build the driver.  Serialised by a lock."""
     res = BuildResult()
@@ -189,7 +218,11 @@ def build(prop: str, driver: str | None, extra_targets=()) -> BuildResult:
         fcntl.flock(lk, fcntl.LOCK_EX)
         env = dict(os.environ)
         env["PYTHONPATH"] = REPO + ":" + os.path.join(VERIF, "harness")
-        rc, out = sh([PY, os.path.join(VERIF, "harness", "gen_tables.py")], env=env, timeout=300)
+        roots = ["Props/%s.v" % prop] + (["Extract/Extract%s.v" % driver] if driver else [])
+        roots += [t[:-1] if t.endswith(".vo") else t for t in extra_targets]
+        gens = needed_gen_files(roots)
+        # only the tables this property depends on: a change elsewhere in /repo must not alarm here
+        rc, out = sh([PY, os.path.join(VERIF, "harness", "gen_tables.py")] + (gens or ["--none"]), env=env, timeout=300)
         res.gen_log = out
         if rc != 0:
             res.gen_ok = False
